@@ -12,17 +12,26 @@
    the model's answers (result, final bit array, matched indices) must equal the
    implementation's bit for bit on small, collision-rich filters as well as large ones.
    An item missing from the table is a mismatch (coverage is checked before evaluation).
-   An unloaded filter (msgFilterLoad == nil) contains nothing and ignores insertions. *)
+   An unloaded filter (msgFilterLoad == nil) contains nothing and ignores insertions.
+
+   Encoding.  To keep the shards small a byte string b is written as the number 0x01‖b
+   (big-endian, the leading 01 keeps leading zero bytes and the length), so items and
+   transaction ids are [N]; the outpoint serialisation hash‖LE32(index) is computed on
+   that encoding.  The table gives, per item, the list of selected bit positions. *)
 From BU Require Export Lib.Bytes Bloom.BloomTx.
 
-Definition item := list N.
-Definition txid := list N.
-Definition table := list (item * N).
+Definition item := N.
+Definition txid := N.
+Definition table := list (item * N).           (* item -> mask *)
+Definition ptable := list (item * list N).     (* item -> bit positions, as written by the harness *)
+
+Definition mask_of (ps : list N) : N := fold_left (fun m p => N.lor m (N.shiftl 1 p)) ps 0.
+Definition masks (pt : ptable) : table := map (fun e => (fst e, mask_of (snd e))) pt.
 
 Fixpoint lookup (tbl : table) (x : item) : option N :=
   match tbl with
   | [] => None
-  | (k, v) :: rest => if list_eqb k x then Some v else lookup rest x
+  | (k, v) :: rest => if k =? x then Some v else lookup rest x
   end.
 
 Record bf := { bf_loaded : bool; bf_bits : N }.
@@ -36,7 +45,8 @@ Definition bf_insert (tbl : table) (f : bf) (x : item) : bf :=
   if bf_loaded f then {| bf_loaded := true; bf_bits := N.lor (bf_bits f) (bits_of tbl x) |} else f.
 
 Definition id_item (h : txid) : item := h.
-Definition op_item (h : txid) (i : N) : item := h ++ le_bytes 4 i.
+(* 0x01‖hash‖LE32(i) *)
+Definition op_item (h : txid) (i : N) : item := h * 2 ^ 32 + be_value (le_bytes 4 i) 0.
 
 (* compact transaction literals written by the harness *)
 Definition T (id : txid) (outs : list (option (list item) * sclass)) (ins : list (txid * N * option (list item))) : tx item txid :=
@@ -45,9 +55,9 @@ Definition T (id : txid) (outs : list (option (list item) * sclass)) (ins : list
 
 Inductive case :=
 (* Filter.MatchTxAndUpdate: result and the bit array afterwards *)
-| MatchTx (tbl : table) (loaded : bool) (fl : uflag) (f0 : N) (t : tx item txid) (r : bool) (f1 : N)
+| MatchTx (pt : ptable) (loaded : bool) (fl : uflag) (f0 : N) (t : tx item txid) (r : bool) (f1 : N)
 (* bloom.GetMatchedIndices: the matched indices (any order) and the bit array afterwards *)
-| Scan (tbl : table) (loaded : bool) (fl : uflag) (f0 : N) (txs : list (tx item txid)) (matched : list nat) (f1 : N).
+| Scan (pt : ptable) (loaded : bool) (fl : uflag) (f0 : N) (txs : list (tx item txid)) (matched : list nat) (f1 : N).
 
 Definition opt_items (o : option (list item)) : list item := match o with Some l => l | None => [] end.
 Definition tx_items (t : tx item txid) : list item :=
@@ -64,14 +74,16 @@ Definition same_set (n : nat) (a b : list nat) : bool :=
 
 Definition check (c : case) : bool :=
   match c with
-  | MatchTx tbl loaded fl f0 t r f1 =>
+  | MatchTx pt loaded fl f0 t r f1 =>
+      let tbl := masks pt in
       covered tbl t &&
       let '(r', f') := match_tx_update (bf_contains tbl) (bf_insert tbl) id_item op_item fl
                          {| bf_loaded := loaded; bf_bits := f0 |} t in
       Bool.eqb r r' && (bf_bits f' =? f1)
-  | Scan tbl loaded fl f0 txs matched f1 =>
+  | Scan pt loaded fl f0 txs matched f1 =>
+      let tbl := masks pt in
       forallb (covered tbl) txs &&
-      match scan (bf_contains tbl) (bf_insert tbl) list_eqb id_item op_item fl
+      match scan (bf_contains tbl) (bf_insert tbl) N.eqb id_item op_item fl
                  {| bf_loaded := loaded; bf_bits := f0 |} txs with
       | Some st => same_set (length txs) matched (s_matched st) && (bf_bits (s_f st) =? f1)
       | None => false
